@@ -615,7 +615,12 @@ func reifyMergeValue(
 			tmp.Set(old)
 			old = tmp
 		}
-		return reifyArray(opts, old, baseType, val)
+		v, err := reifyArray(opts, old, baseType, val)
+		if err != nil || !v.IsValid() {
+			return v, err
+		}
+		// the old value can be a pointer to an array (element of a map or list)
+		return pointerize(t, baseType, v), nil
 
 	case reflect.Slice:
 		v, err := reifySliceMerge(opts, old, baseType, val)
